@@ -754,7 +754,8 @@ def gen_class(rng, names: Names, refs, tvs, *, private=False, depth=1, docs=True
 
 
 def gen_package(rng: random.Random, idx: int, *, style="plaintext", nmods=3, reexports=True, subpackage=True, keywords=False,
-                docs=True, cross_refs=True, private_bases=True, doc_types=False, generics=True, reuse=True, private_root=False) -> Package:
+                docs=True, cross_refs=True, private_bases=True, doc_types=False, generics=True, reuse=True, private_root=False,
+                result_name_grid=False) -> Package:
     tag = f"q{idx}"
     names = Names(rng, tag)
     root = f"_pkg{tag}" if private_root else f"pkg{tag}"
@@ -985,6 +986,17 @@ def gen_package(rng: random.Random, idx: int, *, style="plaintext", nmods=3, ree
                         om.funcs.append(Func(pname, [], ret=Ann("int")))
                     else:
                         om.classes[0].methods.append(Func(pname, [], ret=Ann("int")))
+    if result_name_grid:
+        # every pattern of named / unnamed entries in the Returns section of functions that return tuples of two and three
+        gm = Module(f"{root}/result_names_{names.num()}{tag}.py", f"{root}.result_names_{names.n:03d}{tag}")
+        for n_res in (2, 3):
+            kinds = ["int", "str", "float"][:n_res]
+            for mask in range(2 ** n_res):
+                f = Func(f"rn{n_res}m{mask}x{names.num()}{tag}", [], ret=Ann("tuple", args=[Ann(k) for k in kinds]))
+                f.doc = f"Doc of {f.name}."
+                f.result_docs = [((f"res{i}_{f.name}" if mask >> i & 1 else ""), kinds[i], f"Result {i} of {f.name}.") for i in range(n_res)]
+                gm.funcs.append(f)
+        mods.append(gm)
     # one class name defined (and instantiated) in two modules, and a third module that derives from one of them through a
     # module alias: the name is in the alias table with two candidates, neither of them in the deriving module
     pubmods = [m for m in mods if m.dotted and not any(seg.startswith("_") for seg in m.dotted.split(".")[1:])]
